@@ -425,7 +425,70 @@ fn exec_n<T: Elem>(kind: u8, n: usize, ops: &[Op]) -> Option<(String, Kinds)> {
         3 => exec::<T, 3>(kind, ops),
         4 => exec::<T, 4>(kind, ops),
         5 => exec::<T, 5>(kind, ops),
+        6 => exec::<T, 6>(kind, ops),
+        31 => exec::<T, 31>(kind, ops),
+        32 => exec::<T, 32>(kind, ops),
+        33 => exec::<T, 33>(kind, ops),
+        40 => exec::<T, 40>(kind, ops),
+        64 => exec::<T, 64>(kind, ops),
+        65 => exec::<T, 65>(kind, ops),
         _ => exec::<T, 6>(kind, ops),
+    }
+}
+
+/// stress: capacities around the 32/64 block sizes; scripted histories that take f items from the
+/// front and b from the back, then clone / drop / assert_is_empty (and the clone is consumed or
+/// dropped); builders pushed up to a block edge, then cloned / dropped / built
+pub fn stress(cfg: &Cfg, out: &mut Out, fam: &str, kinds: &[u8]) {
+    let ns: &[usize] = if cfg.thorough { &[31, 32, 33, 40, 64, 65] } else { &[32, 33, 40, 65] };
+    for &n in ns {
+        let mut cuts: Vec<usize> = vec![0, 1, 3, n / 2, n - 1, n];
+        cuts.sort_unstable();
+        cuts.dedup();
+        if kinds.contains(&0) {
+            for &f in &cuts {
+                for &b in &cuts {
+                    if f + b > n + 1 {
+                        continue;
+                    }
+                    let mut pre: Vec<Op> = vec![(1, 0, 0); f];
+                    pre.extend(vec![(2u8, 0u8, 0u8); b]);
+                    let tails: Vec<Vec<Op>> = vec![
+                        vec![(5, 0, 0)],
+                        vec![(3, 0, 0), (5, 0, 0), (1, 1, 0), (2, 1, 0), (5, 1, 0)],
+                        vec![(3, 0, 0), (5, 1, 0), (1, 0, 0), (5, 0, 0)],
+                        vec![(4, 0, ((n - f.min(n)) / 2) as u8), (5, 0, 0)],
+                        vec![(6, 0, 0)],
+                    ];
+                    for t in tails {
+                        let mut ops = pre.clone();
+                        ops.extend(t);
+                        if let Some((line, _)) = exec_n::<E>(0, n, &ops) {
+                            out.line(fam, &format!("0 {} 0 {}", n, show_ops(&ops)), &line, "-", &tag_of(&ops, &line));
+                        }
+                    }
+                }
+            }
+        }
+        if kinds.contains(&1) {
+            for &k in &cuts {
+                let pre: Vec<Op> = vec![(7, 0, 0); k];
+                let tails: Vec<Vec<Op>> = vec![
+                    vec![(5, 0, 0)],
+                    vec![(8, 0, 0)],
+                    vec![(3, 0, 0), (7, 1, 0), (8, 1, 0), (5, 0, 0)],
+                    vec![(4, 0, (k / 2) as u8), (8, 0, 0)],
+                    vec![(7, 0, 0), (8, 0, 0)],
+                ];
+                for t in tails {
+                    let mut ops = pre.clone();
+                    ops.extend(t);
+                    if let Some((line, _)) = exec_n::<E>(1, n, &ops) {
+                        out.line(fam, &format!("1 {} 0 {}", n, show_ops(&ops)), &line, "-", &tag_of(&ops, &line));
+                    }
+                }
+            }
+        }
     }
 }
 
@@ -621,5 +684,6 @@ fn map_family(cfg: &Cfg, out: &mut Out) {
 
 pub fn run(cfg: &Cfg, out: &mut Out) {
     histories(cfg, out, "c15.hist", &[0, 1, 2]);
+    stress(cfg, out, "c15.hist", &[0, 1]);
     map_family(cfg, out);
 }
